@@ -56,7 +56,7 @@ def observe(module, B, rec):
         out["tabs"][t] = sorted(((gpos(o.element_id, o.displacement), irgen.tabval(t, v)) for o, v in module.aux_data[name].data.items()), key=repr)
     for o, ds in module.aux_data["cfiDirectives"].data.items():
         for d in ds:
-            out["cfi"].append((gpos(o.element_id, o.displacement), irgen.DCLASS.get(d[0], "O"), d[1][0] if d[1] else 0))
+            out["cfi"].append((gpos(o.element_id, o.displacement), irgen.DCLASS.get(d[0], "O"), d[1][-1] if d[1] else 0))
     return out
 
 
@@ -200,7 +200,7 @@ class C04(IRProp):
                         im = len(chunks[i][0]) if any(True for _ in [0]) else None
                     if im is not None:
                         if did not in got:
-                            if d == case.size(i) or c == "O":
+                            if d == case.size(i) or c in "ODA":
                                 continue       # boundary directives and plain directives next to removed code are C08's concern
                             bad.append(dict(what=f"CFI directive {c}{did} of block {i}+{d} disappeared"))
                         elif got[did][0] not in (starts[i] + im, starts[i] + (image_before(i, d) if image_before(i, d) is not None else im)) and d < case.size(i):
